@@ -126,10 +126,11 @@ const (
 	wSpace                 // " " + right
 	wUpper                 // right with ASCII letters upper-cased
 	wJSONEquivalent        // JSON marshal helper only: the same JSON value, other key order, spacing and number form
+	wInvalidByte           // another invalid UTF-8 byte in the place of one (0xff -> 0xfe, 0xe9 -> 0xe8): equal as runes, different as bytes
 	numWrong
 )
 
-var wrongNames = [...]string{"+~", "+newline", "-last byte", "space+", "upper-cased", "json-equivalent"}
+var wrongNames = [...]string{"+~", "+newline", "-last byte", "space+", "upper-cased", "json-equivalent", "other-invalid-utf8-byte"}
 
 func wrongOf(s string, kind int) string {
 	switch kind {
@@ -146,6 +147,19 @@ func wrongOf(s string, kind int) string {
 		u := strings.ToUpper(s)
 		if u != s {
 			return u
+		}
+		return s + "~"
+	case wInvalidByte:
+		b := []byte(s)
+		changed := false
+		for i, c := range b {
+			if c == 0xff || c == 0xe9 {
+				b[i] = c - 1
+				changed = true
+			}
+		}
+		if changed {
+			return string(b)
 		}
 		return s + "~"
 	}
